@@ -174,3 +174,15 @@ Definition oracle_run (c : val) : val :=
                         let (s', code) := ostep s o in
                         (s', out ++ [VL [vNat code; enc_ostate s']]))
                      (map dec_oop (vL (vnth 1 c))) (oinit (map vB (vL (vnth 0 c))), []))).
+
+(* ---------- genesis export / import of the oracle module (C15) ---------- *)
+(* x/oracle/keeper/genesis.go: params, prices and holders are exported; InitGenesis sets the epoch
+   to 1; the claims and vote lists of the running epoch have no genesis field *)
+Definition orestart (s : ostate) : ostate :=
+  mkOs 1 [] [] [] [] (os_prices s) (os_holders s) (os_vals s) (os_required s).
+Definition oraclegen_run (c : val) : val :=
+  VL (snd (fold_left (fun (acc : ostate * list val) (ov : val) =>
+                        let (s, out) := acc in
+                        if vI (vnth 0 ov) =? 5 then (orestart s, out ++ [VL [VI 0; enc_ostate (orestart s)]])
+                        else let (s', code) := ostep s (dec_oop ov) in (s', out ++ [VL [vNat code; enc_ostate s']]))
+                     (vL (vnth 1 c)) (oinit (map vB (vL (vnth 0 c))), []))).
